@@ -79,7 +79,7 @@ CHECKS["C01"] = dict(
          "indicator - ends in exactly the store (or exception) of one calculate() over the whole stream (canonical causal semantics, "
          "proved by induction over the loop for all streams, lengths and chunkings), and on a collapsing timeframe the re-collapse "
          "of calculated buckets followed by new raw candles, then calculate(), gives the batch result on the resampled whole stream. "
-         "The two obligations are discharged for HLA, TR, OBV, EMA, SMA, RMA, WMA, ROC, Counter and every Amorph-wrapped analysis "
+         "The two obligations are discharged for HLA, TR, OBV, EMA, SMA, RMA, WMA, VWMA, ROC, Counter, HL, Donchian, AROON and every Amorph-wrapped analysis "
          "function (all periods >= 1, all inputs not reading the own slot). " + ENGINE_TIE +
          "Falsifier: incremental vs batch deep equality over all 27 kinds + Amorph wrappers, base/S/T/H/D timeframes, fill, HA.",
     note="Proved for leaf indicators on the base and on collapsing timeframes (without fill/Heikin-Ashi in the composition); for the "
